@@ -399,9 +399,22 @@ public:
     } else if (!m_variable && !other.m_variable) {
       return (m_partitions[0].get_dom() <= other.m_partitions[0].get_dom());
     } else if (!(m_variable == other.m_variable)) {
-      partition_t smashed_this = merge_partitions();
-      partition_t smashed_other = other.merge_partitions();
-      return smashed_this.get_dom() <= smashed_other.get_dom();
+      // The partitions of other cannot be merged: their join can be
+      // strictly larger than their union.  We answer yes only if
+      // each partition of *this is included in some partition of
+      // other (sound but incomplete).
+      for (auto const &this_p : m_partitions) {
+        if (this_p.get_dom().is_bottom()) {
+          continue;
+        }
+        if (!std::any_of(other.m_partitions.begin(), other.m_partitions.end(),
+                         [&this_p](const partition_t &other_p) {
+                           return this_p.get_dom() <= other_p.get_dom();
+                         })) {
+          return false;
+        }
+      }
+      return true;
     } else {
       for (auto this_it = m_partitions.begin(), this_et = m_partitions.end(),
                 other_it = other.m_partitions.begin(),
@@ -424,15 +437,17 @@ public:
           ++this_it;
         } else {
           // The partition on the left overlaps one or more partitions on the
-          // right
-          NumDomain other_dom = other_it->get_dom();
+          // right.  They cannot be joined (the join can be strictly
+          // larger than their union): the left partition must be
+          // included in one of them.
+          bool included = (this_it->get_dom() <= other_it->get_dom());
           for (auto it = ++other_it;
                it != other_et &&
                this_it->get_interval().ub() >= it->get_interval().lb();
                ++it) {
-            other_dom |= it->get_dom();
+            included = included || (this_it->get_dom() <= it->get_dom());
           }
-          if (!(this_it->get_dom() <= other_dom)) {
+          if (!included) {
             return false;
           }
           ++this_it;
